@@ -460,7 +460,9 @@ func parseXerial(comp []byte) (blocks [][]byte, offs []int, err error) {
 }
 
 var refZstdDec = func() *zstdlib.Decoder {
-	d, err := zstdlib.NewReader(nil, zstdlib.WithDecoderConcurrency(1))
+	// the window limit of the reference decoders (libzstd and zstd-jni refuse frames that announce more than 2^27 bytes
+	// unless told otherwise): a stream other clients can read stays below it
+	d, err := zstdlib.NewReader(nil, zstdlib.WithDecoderConcurrency(1), zstdlib.WithDecoderMaxWindow(128<<20))
 	if err != nil {
 		panic(err)
 	}
